@@ -1803,6 +1803,34 @@ package leveldb
 //@   ensures [C18:closed-means-closed] old(db.closed) != 0 ==> (result == ErrClosed && calls("(*session).release") == old(calls("(*session).release")) && calls("storage.Storage.Create") == old(calls("storage.Storage.Create")) && calls("storage.Storage.Remove") == old(calls("storage.Storage.Remove")) && calls("storage.Storage.Rename") == old(calls("storage.Storage.Rename")) && calls("storage.Storage.SetMeta") == old(calls("storage.Storage.SetMeta")))
 //@   ensures [C18:first-close-gives-the-storage-back] old(db.closed) == 0 ==> (db.closed != 0 && calls("(*session).release") == old(calls("(*session).release")) + 1)
 //@ count (*session).release
+// ... in this order: the background goroutines are told to stop and have all ended before the journal is closed and
+// the session (manifest, table cache) is shut; the storage lock is given back after the session is shut - another
+// process may open the directory from that moment on - and the journal writer is not kept.
+//@ count (*session).close
+//@ ghost var gCloseSignalled bool
+//@ ghost var gCloseWaited bool
+//@ ghost var gJournalClosed bool
+//@ func (*DB).Close
+//@   props C18 C04
+//@   safety off
+//@   at entry
+//@     ghost gCloseSignalled = false
+//@     ghost gCloseWaited = false
+//@     ghost gJournalClosed = false
+//@   at after stmt close(db.closeC)
+//@     ghost gCloseSignalled = true
+//@   at before call sync.WaitGroup.Wait#1
+//@     assert [C04,C18:the-goroutines-are-told-to-stop-before-they-are-waited-for] gCloseSignalled
+//@   at call sync.WaitGroup.Wait#1
+//@     ghost gCloseWaited = true
+//@   at before call (*Writer).Close#1
+//@     assert [C04,C18:the-journal-is-closed-after-the-goroutines-have-ended] gCloseWaited
+//@   at call (*Writer).Close#1
+//@     ghost gJournalClosed = true
+//@   at before call (*session).close#1
+//@     assert [C04,C18:the-session-is-shut-after-the-goroutines-have-ended-and-the-journal-is-closed] gCloseWaited && (old(db.journal) == nil || gJournalClosed)
+//@   at before call (*session).release#1
+//@     assert [C04,C18:the-storage-lock-is-given-back-after-the-session-is-shut] calls("(*session).close") == old(calls("(*session).close")) + 1
 //@ func (*DB).OpenTransaction
 //@   props C18
 //@   safety off
